@@ -351,6 +351,8 @@ pub enum ROp {
     Literal([u8; 4], u16),
     /// age every cache entry by this many seconds
     Age(u16),
+    /// resolve name #i with all of these ports at the same time
+    Burst(u8, Vec<u16>),
 }
 
 #[derive(Clone, Debug, Serialize, Deserialize)]
@@ -372,6 +374,7 @@ impl Family for ResolveFam {
             8 => (0u8..3, prop_oneof![Just(80u16), Just(443), Just(0), Just(65535), any::<u16>()]).prop_map(|(i, p)| ROp::Resolve(i, p)),
             1 => (any::<[u8; 4]>(), any::<u16>()).prop_map(|(a, p)| ROp::Literal(a, p)),
             2 => prop_oneof![Just(1u16), Just(30), Just(59), Just(61), Just(120)].prop_map(ROp::Age),
+            3 => (0u8..3, proptest::collection::vec(prop_oneof![Just(80u16), Just(443), Just(8080), any::<u16>()], 2..5)).prop_map(|(i, p)| ROp::Burst(i, p)),
         ];
         (proptest::collection::vec(1u8..=3, 1..=3), proptest::collection::vec(op, 2..14)).prop_map(|(names, ops)| ResolveCase { names, ops }).boxed()
     }
@@ -415,6 +418,35 @@ impl Family for ResolveFam {
                             multi = true;
                         }
                         ports_seen[i].push(*port);
+                    }
+                    ROp::Burst(i, ports) => {
+                        let i = idx((*i as u16) << 8, names2.len()).min(names2.len() - 1);
+                        let mut hs = Vec::new();
+                        for p in ports {
+                            let name = names2[i].clone();
+                            let p = *p;
+                            hs.push(tokio::spawn(async move { (p, tokio::time::timeout(Duration::from_secs(20), anytls_rs::util::resolve_host_with_cache(&name, p)).await) }));
+                        }
+                        for h in hs {
+                            let (port, r) = h.await.map_err(|e| infra(format!("resolver task: {e}")))?;
+                            let a = match r {
+                                Ok(Ok(a)) => a,
+                                Ok(Err(e)) => return Err(infra(format!("fake DNS lookup of {} failed: {e}", names2[i]))),
+                                Err(_) => return Err(infra("fake DNS lookup timed out")),
+                            };
+                            let ok_ip = matches!(a.ip(), IpAddr::V4(v4) if tables2[i].contains(&v4));
+                            ensure!(
+                                ok_ip && a.port() == port,
+                                "C07.resolve",
+                                "resolve({}, {port}) - one of {} simultaneous lookups with ports {:?} - returned {a}; the name maps to {:?}",
+                                names2[i],
+                                ports.len(),
+                                ports,
+                                tables2[i]
+                            );
+                            ports_seen[i].push(port);
+                        }
+                        multi = true;
                     }
                     ROp::Literal(ip, port) => {
                         let h = Ipv4Addr::from(*ip).to_string();
